@@ -250,9 +250,7 @@ impl<W: Word, B: AsRef<[W]>> BitFieldVec<W, B> {
                 || self.bit_width == W::BITS
         );
         panic_if_out_of_bounds!(index, self.len);
-        assert!(
-            (index * self.bit_width) / 8 + W::BYTES <= self.bits.as_ref().len() * W::BYTES
-        );
+        assert!((index * self.bit_width) / 8 + W::BYTES <= self.bits.as_ref().len() * W::BYTES);
         unsafe { self.get_unaligned_unchecked(index) }
     }
 
